@@ -377,11 +377,12 @@ def run(ctx: Ctx) -> None:
         kind = CONFIGS[ctx.shard[0] % len(CONFIGS)]
         for i in range(ctx.pick(6, 150)):
             sequential_round(ctx, ctx.rng("seq", ctx.shard[0], i), kind if i % 2 == 0 else CONFIGS[(ctx.shard[0] + i) % len(CONFIGS)], i)
+        soak_round(ctx, s, ctx.rng("soak", ctx.shard[0], 0), CONFIGS[ctx.shard[0] % len(CONFIGS)], 0)  # one soak before the budgeted part
         for nq in (1, 2):
             if ctx.out_of_time():
                 break
             enumerate_asks(ctx, s, kind, nq)
-        for i in range(ctx.pick(2, 60)):
+        for i in range(1, ctx.pick(2, 60)):
             if ctx.out_of_time():
                 break
             soak_round(ctx, s, ctx.rng("soak", ctx.shard[0], i), CONFIGS[(ctx.shard[0] + i) % len(CONFIGS)], i)
